@@ -2,6 +2,7 @@ package c18
 
 import (
 	"flag"
+	"os"
 	"testing"
 
 	"verif/harness/pbt"
@@ -25,9 +26,14 @@ func TestProp(t *testing.T) {
 	_ = flag.Set("rapid.shrinktime", "8s")
 	r.Regress(dispatch())
 	r.RunProbes(probes())
-	steppedPart.Run(r)
-	burstPart.Run(r)
-	pingPart.Run(r)
+	sp, bp, pp := steppedPart, burstPart, pingPart
+	if os.Getenv("VERIF_RACE") != "" {
+		// the -race shards of the thorough tier repeat the search at about a tenth of the speed
+		sp.Thorough, bp.Thorough, pp.Thorough = sp.Thorough/8, bp.Thorough/8, pp.Thorough/4
+	}
+	sp.Run(r)
+	bp.Run(r)
+	pp.Run(r)
 }
 
 func TestReplay(t *testing.T) { pbt.StdReplay(t, "C18", dispatch()) }
